@@ -122,6 +122,7 @@ def generate(seed, tier):
       'sampler_seed': g.randint(0, 2**20),
       'algo': 'fedavg' if g.chance(0.10) else 'count',
       'junk': [],
+      'empty_final': g.chance(0.15),
   }
   cfg['cohort'] = g.randint(1, cfg['n_clients'])
   if g.chance(0.35):
@@ -293,6 +294,12 @@ def _build(cfg, rec, fs, on_marker):
       return {'k': np.float32(len(train_clients))}
 
   final_map = {f'final{k}': Final(k) for k in range(cfg['n_final'])}
+  if cfg.get('empty_final'):
+    class NoMetrics(fe.EvaluationFn):
+      def __call__(self, state, round_num):
+        on_marker('final_eval')
+        return {}
+    final_map['nometrics'] = NoMetrics()
   periodic = {}
   if cfg['n_periodic'] >= 1:
     periodic['p_eval'] = Periodic()
